@@ -1,4 +1,193 @@
 import PsaDhcp.Model.Observed
 import PsaDhcp.Proofs.Ipdb
+/-
+Bridge lemmas for C11: an observation accepted by `findLoopObs`/`findObs` is a run of the real
+`IPDB.findLoop`/`IPDB.findIP` over the concrete store for some oracle (and candidate order).
+-/
 namespace PsaDhcp.Proofs.Observed
+open PsaDhcp
+
+/-- `findLoop` started at index `i` consults the oracle only at indices `≥ i`. -/
+theorem findLoop_congr {σ : Type} (S : Store σ) (d : Nat) :
+    ∀ (cands : List Nat) (orc₁ orc₂ : Nat → IPDB.Iter) (i : Nat) (s : σ),
+      (∀ j, i ≤ j → orc₁ j = orc₂ j) →
+      IPDB.findLoop S d cands orc₁ i s = IPDB.findLoop S d cands orc₂ i s
+  | [], _, _, _, _, _ => by simp only [IPDB.findLoop]
+  | v :: rest, orc₁, orc₂, i, s, h => by
+    have ih := fun s' => findLoop_congr S d rest orc₁ orc₂ (i + 1) s' (fun j hj => h j (by omega))
+    simp only [IPDB.findLoop, h i (Nat.le_refl _), ih]
+
+/-- One step of `findLoop` on a candidate that is skipped or refused, with a non-cancelled oracle
+entry. -/
+theorem findLoop_cons {σ : Type} (S : Store σ) (d v : Nat) (rest : List Nat) (orc : Nat → IPDB.Iter)
+    (i : Nat) (s : σ) (hc : (orc i).cancelled = false) :
+    IPDB.findLoop S d (v :: rest) orc i s =
+      if (S.lookup s (orc i).now ((d + v) % 4294967296) []).2.byIp.isNone
+          && IPDB.validUip ((d + v) % 4294967296) && (orc i).free
+      then ((S.lookup s (orc i).now ((d + v) % 4294967296) []).1, some ((d + v) % 4294967296))
+      else IPDB.findLoop S d rest orc (i + 1) (S.lookup s (orc i).now ((d + v) % 4294967296) []).1 := by
+  simp only [IPDB.findLoop, hc]
+  simp
+
+/-- Prepend an oracle entry at index `i` to an oracle for the indices `> i`. -/
+def consOrc (i : Nat) (it : IPDB.Iter) (orc : Nat → IPDB.Iter) : Nat → IPDB.Iter :=
+  fun j => if j = i then it else orc j
+
+theorem consOrc_self (i : Nat) (it : IPDB.Iter) (orc : Nat → IPDB.Iter) : consOrc i it orc i = it := by
+  simp [consOrc]
+
+theorem consOrc_cancelled (i : Nat) (it : IPDB.Iter) (orc : Nat → IPDB.Iter) (hit : it.cancelled = false)
+    (h : ∀ j, (orc j).cancelled = false) : ∀ j, (consOrc i it orc j).cancelled = false := by
+  intro j
+  unfold consOrc
+  split
+  · exact hit
+  · exact h j
+
+theorem findLoop_consOrc {σ : Type} (S : Store σ) (d : Nat) (rest : List Nat) (i : Nat) (it : IPDB.Iter)
+    (orc : Nat → IPDB.Iter) (s : σ) :
+    IPDB.findLoop S d rest (consOrc i it orc) (i + 1) s = IPDB.findLoop S d rest orc (i + 1) s := by
+  apply findLoop_congr
+  intro j hj
+  have : j ≠ i := by omega
+  simp [consOrc, this]
+
+/-- A candidate that `findLoop` does not return (bound, invalid, or refused by the probe). -/
+theorem step_continue (dynFrom v : Nat) (rest : List Nat) (s s' : Clients) (res : Option Nat) (i : Nat)
+    (now : Int) (free : Bool)
+    (hel : ¬ ((Clients.lookupRes s now ((dynFrom + v) % 4294967296) []).2.byIp.isNone
+        && IPDB.validUip ((dynFrom + v) % 4294967296) && free) = true)
+    (hrec : ∃ orc : Nat → IPDB.Iter, (∀ j, (orc j).cancelled = false) ∧
+      IPDB.findLoop clientsStore dynFrom rest orc (i + 1)
+        (Clients.lookupRes s now ((dynFrom + v) % 4294967296) []).1 = (s', res)) :
+    ∃ orc : Nat → IPDB.Iter, (∀ j, (orc j).cancelled = false) ∧
+      IPDB.findLoop clientsStore dynFrom (v :: rest) orc i s = (s', res) := by
+  obtain ⟨orc, hc, hrun⟩ := hrec
+  refine ⟨consOrc i ⟨false, now, free⟩ orc, consOrc_cancelled _ _ _ rfl hc, ?_⟩
+  rw [findLoop_cons clientsStore dynFrom v rest _ i s (by rw [consOrc_self]), consOrc_self, findLoop_consOrc]
+  show (if ((Clients.lookupRes s now ((dynFrom + v) % 4294967296) []).2.byIp.isNone
+        && IPDB.validUip ((dynFrom + v) % 4294967296) && free) = true then _ else _) = _
+  rw [if_neg hel]
+  exact hrun
+
+/-- A candidate that `findLoop` returns. -/
+theorem step_return (dynFrom v : Nat) (rest : List Nat) (s : Clients) (i : Nat) (now : Int)
+    (hel : ((Clients.lookupRes s now ((dynFrom + v) % 4294967296) []).2.byIp.isNone
+        && IPDB.validUip ((dynFrom + v) % 4294967296)) = true) :
+    ∃ orc : Nat → IPDB.Iter, (∀ j, (orc j).cancelled = false) ∧
+      IPDB.findLoop clientsStore dynFrom (v :: rest) orc i s =
+        ((Clients.lookupRes s now ((dynFrom + v) % 4294967296) []).1, some ((dynFrom + v) % 4294967296)) := by
+  refine ⟨fun _ => ⟨false, now, true⟩, fun _ => rfl, ?_⟩
+  rw [findLoop_cons clientsStore dynFrom v rest _ i s rfl]
+  show (if ((Clients.lookupRes s now ((dynFrom + v) % 4294967296) []).2.byIp.isNone
+        && IPDB.validUip ((dynFrom + v) % 4294967296) && true) = true then _ else _) = _
+  rw [Bool.and_true, if_pos hel]
+  rfl
+
+theorem bool_ite_cases {α : Type} (c : Bool) (a b x : α) (h : (if c = true then a else b) = x) :
+    (c = true ∧ a = x) ∨ (c = false ∧ b = x) := by
+  cases c <;> simp_all
+
+/-- The generalisation of `observed_search_is_a_run` to an arbitrary starting index. -/
+theorem observed_search_from (dynFrom : Nat) (chaddr : Bytes) (t0 : Int) (s' : Clients) (res : Option Nat) (tl' : Int) :
+    ∀ (cands : List Nat) (obs : List ObsProbe) (tl : Int) (s : Clients) (i : Nat),
+      findLoopObs dynFrom chaddr false t0 cands obs tl s = .ok (s', res, [], tl') →
+      ∃ orc : Nat → IPDB.Iter, (∀ j, (orc j).cancelled = false) ∧
+        IPDB.findLoop clientsStore dynFrom cands orc i s = (s', res) := by
+  intro cands
+  induction cands with
+  | nil =>
+    intro obs tl s i h
+    simp only [findLoopObs, Except.ok.injEq, Prod.mk.injEq] at h
+    refine ⟨fun _ => ⟨false, 0, false⟩, fun _ => rfl, ?_⟩
+    simp only [IPDB.findLoop, Prod.mk.injEq]
+    exact ⟨h.1, h.2.1⟩
+  | cons v rest ih =>
+    intro obs tl s i h
+    cases obs with
+    | nil =>
+      simp only [findLoopObs] at h
+      split at h
+      · -- eligible candidate but nothing observed: rejected
+        simp only [Bool.false_eq_true, if_false] at h
+        split at h <;> simp at h
+      · -- skipped candidate
+        rename_i hel
+        exact step_continue dynFrom v rest s s' res i tl true (by simpa using hel) (ih [] tl _ (i + 1) h)
+    | cons o obs' =>
+      simp only [findLoopObs] at h
+      split at h
+      · -- eligible candidate: must be the next observed probe
+        rename_i hel
+        split at h
+        · split at h <;> simp at h
+        · rcases bool_ite_cases _ _ _ _ h with ⟨_, h⟩ | ⟨_, h⟩
+          · -- observed free: the loop returns here
+            simp only [Except.ok.injEq, Prod.mk.injEq] at h
+            rw [← h.1, ← h.2.1]
+            exact step_return dynFrom v rest s i o.ts hel
+          · -- observed conflict: the loop continues
+            exact step_continue dynFrom v rest s s' res i o.ts false (by simp) (ih obs' o.te _ (i + 1) h)
+      · -- skipped candidate: consumes no observation
+        rename_i hel
+        exact step_continue dynFrom v rest s s' res i o.ts true (by simpa using hel) (ih (o :: obs') tl _ (i + 1) h)
+
+theorem observed_search_is_a_run (dynFrom : Nat) (chaddr : Bytes) (t0 : Int) (cands : List Nat) (obs : List ObsProbe)
+    (tl : Int) (s s' : Clients) (res : Option Nat) (tl' : Int)
+    (h : findLoopObs dynFrom chaddr false t0 cands obs tl s = .ok (s', res, [], tl')) :
+    ∃ orc : Nat → IPDB.Iter, (∀ i, (orc i).cancelled = false) ∧
+      IPDB.findLoop clientsStore dynFrom cands orc 0 s = (s', res) :=
+  observed_search_from dynFrom chaddr t0 s' res tl' cands obs tl s 0 h
+
+theorem cand_eq (A : Bool) (P Q : Prop) [Decidable P] [Decidable Q] (x y : List Nat) :
+    (if A = true ∧ P ∧ Q then x else y) = (if (A && decide P && decide Q) = true then x else y) := by
+  by_cases hA : A = true <;> by_cases hP : P <;> by_cases hQ : Q <;> simp [hA, hP, hQ]
+
+theorem clientsStore_lookup : clientsStore.lookup = Clients.lookupRes := rfl
+
+theorem observed_find_is_findIP (db db' : IPDB Clients) (now : Int) (sugg : Option Ip4) (d : Duid) (chaddr : Bytes)
+    (obs : List ObsProbe) (r : Except DbErr Nat) (tl : Int)
+    (h : findObs db now sugg d chaddr obs false = .ok (db', r, tl)) :
+    ∃ (perm : List Nat) (orc : Nat → IPDB.Iter), db.findIP clientsStore now sugg d perm orc = (db', r) := by
+  simp only [findObs, ← clientsStore_lookup] at h
+  simp only [IPDB.findIP]
+  cases hu : db.toUip sugg <;> simp only [hu] at h ⊢ <;> (
+    split at h
+    · -- the client is already bound
+      rename_i a ha
+      refine ⟨[], fun _ => ⟨false, 0, false⟩, ?_⟩
+      simp only [ha]
+      split at h
+      · simp only [Except.ok.injEq, Prod.mk.injEq] at h
+        rw [← h.1, ← h.2.1]
+      · simp at h
+    · rename_i hnone
+      simp only [hnone]
+      split at h
+      · -- search disabled
+        rename_i hd
+        refine ⟨[], fun _ => ⟨false, 0, false⟩, ?_⟩
+        rw [if_pos hd]
+        split at h
+        · simp only [Except.ok.injEq, Prod.mk.injEq] at h
+          rw [← h.1, ← h.2.1]
+        · simp at h
+      · -- the candidate search
+        rename_i hd
+        simp only [if_neg hd]
+        split at h
+        · simp at h
+        · rename_i s res left tl2 hrun
+          split at h
+          · simp at h
+          · rename_i hleft
+            simp only [Decidable.not_not, List.isEmpty_iff] at hleft
+            subst hleft
+            simp only [Except.ok.injEq, Prod.mk.injEq] at h
+            generalize synthPerm db.dynFrom db.dynTo obs _ = perm at hrun
+            obtain ⟨orc, _, hr⟩ := observed_search_is_a_run _ _ _ _ _ _ _ _ _ _ hrun
+            refine ⟨perm, orc, ?_⟩
+            rw [cand_eq, hr, ← h.1, ← h.2.1]
+            cases res <;> rfl)
+
 end PsaDhcp.Proofs.Observed
